@@ -190,9 +190,9 @@ def other : Function := { name := "Other", isError := false, isContext := false,
 /-- with no aliases known yet nothing is found … -/
 theorem checked_too_early : checkDupes [build, other] [] [] = .ok () := by decide
 /-- … although alias "build" → Other collides with target Build: the check after `setAliases` finds it -/
-theorem found_now : checkDupes [build, other] [] [("build", other)] = .error (.aliasDup "build" []) := by decide
+theorem found_now : checkDupes [build, other] [] [("build", other)] = .error (.aliasDup "build" ["<current>.Build"] true) := by decide
 /-- and a mixed-case alias is found as well (the alias is lower-cased first) -/
-theorem mixed_case_found : checkDupes [build, other] [] [("BUILD", other)] = .error (.aliasDup "build" []) := by decide
+theorem mixed_case_found : checkDupes [build, other] [] [("BUILD", other)] = .error (.aliasDup "build" ["<current>.Build"] true) := by decide
 end Pinned
 
 example : Collides ["build", "test", "build"] := ⟨0, 2, by omega, by simp, by simp⟩
